@@ -196,6 +196,26 @@ def scenarios(seed):
             out.append(_Scenario(f"call-same-argument-twice:{variant}", {"o": pt.trace_call(f, x, x) + y}, inputs))
         except Exception:   # noqa: BLE001
             pass
+    # distinct nodes whose hashes collide (CPython: hash(-1) == hash(-2), hash(2**61 - 1) == hash(0), hash(1.0) == hash(1)):
+    # anything keyed on the hash alone merges them
+    x, y, m, i = leaves()
+    M = 2 ** 61 - 1
+    xi = pt.make_placeholder("xi", (5,), np.int64)
+    inputs_h = dict(inputs, xi=np.array([3, -1, 0, 7, 2], dtype=np.int64))
+    coll = {
+        "sub-1-sub-2": (x - 1) * (x - 2),
+        "add-neg1-neg2": pt.stack([x + (-1), x + (-2)]),
+        "roll-1-roll-2": pt.roll(x, -1) - 2 * pt.roll(x, -2),
+        "reverse-step-1-2": pt.concatenate([x[::-1], x[::-2]]),
+        "index-1-index-2": x[-1] * 10 + x[-2],
+        "int-modulus": pt.stack([xi + 0, xi + M]),
+        "float-int-one": pt.stack([x * 1, x * 1.0]) if False else pt.stack([x + 1, x + 1.0]),
+        "transpose-vs-identity-perm": pt.stack([pt.transpose(m, (1, 0)), pt.transpose(m, (0, 1))]),
+        "full-neg1-neg2": pt.full((3,), -1.0) * 3 + pt.full((3,), -2.0),
+        "pad-neg-constants": pt.concatenate([pt.pad(x, 1, constant_values=-1), pt.pad(x, 1, constant_values=-2)]),
+    }
+    for k, v in coll.items():
+        out.append(_Scenario(f"hash-collision:{k}", {"o": v}, inputs_h))
     # wrapped data: overlapping views of one buffer
     base = np.arange(16, dtype=np.float64) * 1.5 - 7
     sq = base.reshape(4, 4)
@@ -292,10 +312,16 @@ def run(ctx: common.Ctx):
         try:
             base = pt.transform.deduplicate(p.expr()) if deduped else p.expr()
         except Exception as e:   # noqa: BLE001
+            dis += 1
+            cases += 1
+            ctx.violation(f"transform:deduplicate:raises:{type(e).__name__}",
+                          f"program {i} (seed {ctx.seed}): deduplicate raised {type(e).__name__}: {e}",
+                          {"program_index": i, "seed": ctx.seed + 500})
             continue
         inp = p.make_inputs(nprng)
         try:
-            ref = evaluate(base, inp)
+            # the reference comes from the graph AS BUILT: `base` has already been through deduplicate
+            ref = evaluate(p.expr(), inp)
         except Exception as e:   # noqa: BLE001
             ctx.broken.append(f"refeval:{type(e).__name__}:program{i}")
             continue
